@@ -3,6 +3,8 @@
 // bound: quick: every directed graph without self loops, one relation, on 4 nodes (4096 edge sets; smaller
 //        graphs are included as graphs with isolated nodes); thorough (VERIF_TIER=thorough): 5 nodes
 //        (1,048,576 edge sets); every ordered pair source != target, maxDepth 1..4, query time "now"
+// rule: every (graph, source, target, maxDepth) tuple inside the stated bound is run once against the real function
+//        and a reference breadth-first search; non-trivial = a path of at least two hops exists (counted by the harness)
 package engine
 
 // Bounded stand-in for C11 (FindPath is a bidirectional BFS over the live graph; "the path is a
